@@ -386,6 +386,7 @@ Qed.
 Lemma do_create_jobs_jext s b u user jss : JU s -> jext s (fst (do_create_jobs s b u user jss)).
 Proof.
   intros Hu. unfold do_create_jobs.
+  destruct (is_nil jss); [apply jext_refl; exact Hu|].
   destruct (find_update s b u) as [up|]; [|apply jext_refl; exact Hu].
   destruct (find_batch s b) as [bt|]; [|apply jext_refl; exact Hu].
   destruct (negb (b_user bt =? user) || b_deleted bt); [apply jext_refl; exact Hu|].
@@ -993,17 +994,12 @@ Proof.
 Qed.
 
 (* the job part of a completion: state change, group and batch tallies, children released *)
-Lemma complete_tail_jext s3 b j x n gf bf (cnd : bool) succ :
-  JU s3 -> find_job s3 b j = Some x -> jskel n = jskel x ->
-  let s4 := update_job s3 x n in
-  let s5 := s4 <| groups ::= gf s4 |> in
-  let s6 := if cnd then s5 <| batches ::= bf |> else s5 in
-  let s7 := finish_groups s6 b (j_group x) in
+Lemma complete_tail_jext s3 s7 b j x n succ :
+  JU s3 -> find_job s3 b j = Some x -> jskel n = jskel x -> core_same (update_job s3 x n) s7 ->
   jext s3 (release_children s7 b j succ).
 Proof.
-  intros Hu Hx Hs s4 s5 s6 s7.
-  assert (J4 : jext s3 s4) by (eapply jext_update_found; eassumption).
-  assert (C7 : core_same s4 s7) by (subst s7 s6 s5; destruct cnd; repeat split).
+  intros Hu Hx Hs C7.
+  assert (J4 : jext s3 (update_job s3 x n)) by (eapply jext_update_found; eassumption).
   assert (J7 : jext s3 s7) by (eapply jext_trans; [exact J4 | apply core_same_jext; [apply J4 | exact C7]]).
   eapply jext_trans; [exact J7 | apply release_children_jext; apply J7].
 Qed.
@@ -1035,7 +1031,10 @@ Proof.
     destruct C3 as [C3 J3]. clearbody s3.
     assert (Hx3 : find_job s3 b j = Some x) by (rewrite (find_job_jobs_eq s s3 b j J3); exact Hx).
     repeat match goal with |- context [if ?c then (_, _) else _] => destruct c end; cbn [fst]; try exact C3.
-    eapply CInv_jext; [exact C3|]. apply complete_tail_jext; [apply C3 | exact Hx3 | reflexivity].
+    eapply CInv_jext; [exact C3|].
+    match goal with |- jext _ (release_children _ _ _ _) => eapply complete_tail_jext; [apply C3 | exact Hx3 | | ] end;
+      [| match goal with |- core_same _ (finish_groups (if ?c then _ else _) _ _) => destruct c end; repeat split];
+      reflexivity.
   - destruct (add_attempt s b j a i (j_cores x)) as [[s1 d0]|] eqn:Eadd; [|exact HC].
     cbn [orb] in Hon.
     destruct (add_attempt_spec _ _ _ _ _ _ _ _ HC Hx Hon Eadd) as (C1 & J1 & c & Fc & Ic).
@@ -1051,5 +1050,301 @@ Proof.
     destruct H as [C3 J3]. clearbody s3.
     assert (Hx3 : find_job s3 b j = Some x) by (rewrite (find_job_jobs_eq s1 s3 b j J3); exact Hx1).
     repeat match goal with |- context [if ?c then (_, _) else _] => destruct c end; cbn [fst]; try exact C3.
-    eapply CInv_jext; [exact C3|]. apply complete_tail_jext; [apply C3 | exact Hx3 | reflexivity].
+    eapply CInv_jext; [exact C3|].
+    match goal with |- jext _ (release_children _ _ _ _) => eapply complete_tail_jext; [apply C3 | exact Hx3 | | ] end;
+      [| match goal with |- core_same _ (finish_groups (if ?c then _ else _) _ _) => destruct c end; repeat split];
+      reflexivity.
 Qed.
+
+(* ------------------------------------------------------------------ (5) billing heartbeat, instances *)
+
+Lemma do_billing_update_cinv s t atts : CInv s -> CInv (fst (do_billing_update s t atts)).
+Proof.
+  intros HC. unfold do_billing_update. cbn [fst]. apply fold_left_pres; [|exact HC].
+  intros st [[b j] a] Hst _. destruct (find_attempt st b j a) as [cur|] eqn:Ef; [|exact Hst].
+  apply find_attempt_in in Ef. destruct Ef as [Hc _]. apply cinv_update_keep; try assumption; reflexivity.
+Qed.
+
+Lemma used_none s n : attinst s -> n <> -1 -> ~ In n (map i_name (insts s)) -> used s n = 0.
+Proof.
+  intros Hai Hn Hnot. unfold used. rewrite filter_none; [reflexivity|].
+  intros a Ha. unfold open_on. destruct (a_inst a =? n) eqn:E; [|reflexivity]. apply Z.eqb_eq in E.
+  exfalso. destruct (Hai a Ha) as [H|H]; [congruence | rewrite E in H; exact (Hnot H)].
+Qed.
+
+Lemma do_new_instance_cinv s n ic c p : CInv s -> CInv (fst (do_new_instance s n ic c p)).
+Proof.
+  intros HC. unfold do_new_instance. destruct (_ || _); [exact HC|].
+  destruct (find_inst s n) as [y|] eqn:Ef; [exact HC|]. cbn [fst].
+  rewrite find_inst_eq in Ef. apply find_ikey_none in Ef.
+  destruct HC as [(Hju & Hau & Hiu & Haj & Hai & Hr) HC]. split.
+  - unfold Inv0, JU, AU, IU, attjob, attinst, reason_ok, find_job. cbn [jobs attempts insts set].
+    change (insts (s <| insts ::= (fun l => l ++ [mkInst n IPending c c ic p]) |>)) with (insts s ++ [mkInst n IPending c c ic p]).
+    repeat split; try assumption.
+    + rewrite map_app. cbn [map i_name]. apply NoDup_snoc; assumption.
+    + intros a Ha. destruct (Hai a Ha) as [H|H]; [left; exact H | right; rewrite map_app; apply in_app_iff; left; exact H].
+  - intros z Hz Hnz.
+    change (insts (s <| insts ::= (fun l => l ++ [mkInst n IPending c c ic p]) |>)) with (insts s ++ [mkInst n IPending c c ic p]) in Hz.
+    unfold cores_ok. rewrite (used_same_attempts s _ (i_name z)) by reflexivity.
+    apply in_app_iff in Hz. destruct Hz as [Hz|[<-|[]]]; [apply HC; assumption|].
+    cbn [i_name i_state i_free i_cores ilive] in *. rewrite (used_none s n Hai Hnz Ef). lia.
+Qed.
+
+(* a change of an instance's state that does not change whether it is live *)
+Lemma cinv_set_state s y st' :
+  CInv s -> In y (insts s) -> ilive st' = ilive (i_state y) -> CInv (s <| insts ::= replace_inst (y <| i_state := st' |>) |>).
+Proof.
+  intros [HI HC] Hy Hl. split.
+  - apply (inv0_insts s _ HI); try reflexivity. cbn [insts]. apply replace_inst_names.
+  - intros z Hz Hnz. change (In z (replace_inst (y <| i_state := st' |>) (insts s))) in Hz.
+    apply in_replace_inst in Hz. unfold cores_ok. rewrite (used_same_attempts s _ (i_name z)) by reflexivity.
+    destruct Hz as [->|[Hz _]]; [|apply HC; assumption].
+    change (i_free y = if ilive st' then i_cores y - used s (i_name y) else i_cores y). rewrite Hl.
+    apply HC; assumption.
+Qed.
+
+Lemma do_activate_cinv s n : CInv s -> CInv (fst (do_activate s n)).
+Proof.
+  intros HC. unfold do_activate. destruct (find_inst s n) as [y|] eqn:Ef; [|exact HC].
+  apply find_inst_in in Ef. destruct Ef as [Hy _].
+  destruct (i_state y) eqn:Es; cbn [fst]; try exact HC. apply cinv_set_state; [exact HC | exact Hy | rewrite Es; reflexivity].
+Qed.
+
+Lemma do_mark_deleted_cinv s n : CInv s -> CInv (fst (do_mark_deleted s n)).
+Proof.
+  intros HC. unfold do_mark_deleted. destruct (find_inst s n) as [y|] eqn:Ef; [|exact HC].
+  apply find_inst_in in Ef. destruct Ef as [Hy _].
+  destruct (i_state y) eqn:Es; cbn [fst]; try exact HC. apply cinv_set_state; [exact HC | exact Hy | rewrite Es; reflexivity].
+Qed.
+
+(* ------------------------------------------------------------------ (5) deactivation *)
+
+Lemma find_akey_replace l n b j a :
+  find (akey b j a) (replace_attempt n l) =
+  if akey b j a n then option_map (fun _ => n) (find (akey b j a) l) else find (akey b j a) l.
+Proof.
+  unfold replace_attempt. induction l as [|x l IH]; cbn [map find].
+  - destruct (akey b j a n); reflexivity.
+  - destruct (same_attempt x n) eqn:E.
+    + apply same_attempt_ak in E.
+      assert (Hk : akey b j a x = akey b j a n).
+      { destruct (ak_fields _ _ E) as (E1 & E2 & E3). unfold akey. rewrite E1, E2, E3. reflexivity. }
+      destruct (akey b j a n) eqn:Kn; rewrite Hk; [reflexivity | rewrite IH; reflexivity].
+    + destruct (akey b j a x) eqn:Kx.
+      * destruct (akey b j a n) eqn:Kn; [|reflexivity].
+        exfalso. apply akey_ak in Kx. apply akey_ak in Kn.
+        assert (T : same_attempt x n = true) by (apply same_attempt_ak; congruence). congruence.
+      * rewrite IH. reflexivity.
+Qed.
+
+Definition inst_of (s : state) (b j a : Z) : option Z := option_map a_inst (find_attempt s b j a).
+
+(* invariant of the loop that ends the attempts of instance [name] *)
+Definition DI (s : state) (name : Z) (st : state) : Prop :=
+  Inv0 st /\ jobs st = jobs s /\ insts st = insts s /\
+  (forall m, m <> name -> used st m = used s m) /\
+  (forall b j a, inst_of st b j a = inst_of s b j a).
+
+Lemma deactivate_attempts_DI s name reason time :
+  Inv0 s ->
+  DI s name (fold_left (fun st a =>
+       if a_inst a =? name then
+         match find_attempt st (a_batch a) (a_job a) (a_id a) with
+         | Some cur => update_attempt st cur (cur <| a_rollup := Some time |> <| a_end := Some time |> <| a_reason := Some reason |>)
+         | None => st end
+       else st) (attempts s) s).
+Proof.
+  intros HI. apply fold_left_pres.
+  - intros st a (I1 & Fj & Fi & U & IO) Ha.
+    destruct (a_inst a =? name) eqn:En; [|unfold DI; tauto]. apply Z.eqb_eq in En.
+    destruct (find_attempt st (a_batch a) (a_job a) (a_id a)) as [cur|] eqn:Ef; [|unfold DI; tauto].
+    assert (Hic : a_inst cur = name).
+    { pose proof (IO (a_batch a) (a_job a) (a_id a)) as E. unfold inst_of in E. rewrite Ef in E.
+      destruct HI as (_ & Hau & _). rewrite find_attempt_eq, (find_akey_unique _ a Hau Ha) in E.
+      cbn [option_map] in E. congruence. }
+    pose proof Ef as Ef'. apply find_attempt_in in Ef'. destruct Ef' as (Hc & Hb & Hj & Hid).
+    set (req := cur <| a_rollup := Some time |> <| a_end := Some time |> <| a_reason := Some reason |>).
+    assert (Hcl : a_inst cur = -1 \/ keeps_pair cur req \/ closes req) by (right; right; split; discriminate).
+    destruct (update_attempt_spec st cur req I1 Hc eq_refl eq_refl Hcl) as (I2 & Fj2 & Fi2 & Ff & Kn & In_ & U1 & _ & _).
+    destruct (update_attempt_core st cur req I1 Hc eq_refl eq_refl) as (_ & _ & Fa & _).
+    repeat split; try apply I2.
+    + congruence.
+    + congruence.
+    + intros m Hm. rewrite U1 by congruence. apply U; exact Hm.
+    + intros b' j' a'. rewrite <- IO. unfold inst_of. rewrite !find_attempt_eq, Fa, find_akey_replace.
+      destruct (akey b' j' a' (clamp cur req)) eqn:Ek; [|reflexivity].
+      apply akey_ak in Ek. rewrite Kn in Ek. unfold ak in Ek. injection Ek as <- <- <-.
+      rewrite <- find_attempt_eq, Hb, Hj, Hid in *. rewrite Ef. cbn [option_map]. congruence.
+  - repeat split; try apply HI.
+Qed.
+
+Lemma do_deactivate_cinv s name reason time : CInv s -> CInv (fst (do_deactivate s name reason time)).
+Proof.
+  intros [HI HC]. unfold do_deactivate. destruct (find_inst s name) as [x|] eqn:Ex; [|split; assumption].
+  destruct (ilive (i_state x)) eqn:El; [|split; assumption]. cbv zeta. cbn [fst].
+  pose proof (deactivate_attempts_DI s name reason time HI) as D.
+  match type of D with DI _ _ ?t => set (s1 := t) in * end.
+  destruct D as (I1 & Fj1 & Fi1 & U1 & _). clearbody s1.
+  match goal with |- CInv (set insts _ ?t) => set (s2 := t) end.
+  assert (J2 : jext s1 s2).
+  { subst s2. apply fold_jext; [|apply I1].
+    intros st j Hst Hj. destruct (j_attempt j) as [a|]; [|apply jext_refl; apply Hst].
+    destruct (find_attempt st (j_batch j) (j_id j) a) as [at_|]; [|apply jext_refl; apply Hst].
+    destruct (_ && _); [|apply jext_refl; apply Hst].
+    apply jext_update_job; [apply Hst|]. eapply jext_has_skel; [exact Hst|].
+    match goal with |- In (jskel ?n) _ => change (jskel n) with (jskel j) end. apply in_map; exact Hj. }
+  clearbody s2. pose proof (Inv0_jext _ _ I1 J2) as I2. pose proof J2 as (Fa2 & Fi2 & _ & _).
+  apply find_inst_in in Ex. destruct Ex as [Hx Hnx].
+  split.
+  - apply (inv0_insts s2 _ I2); try reflexivity. cbn [insts]. apply replace_inst_names.
+  - intros z Hz Hnz.
+    change (In z (replace_inst (x <| i_state := IInactive |> <| i_free := i_cores x |>) (insts s2))) in Hz.
+    rewrite Fi2, Fi1 in Hz. apply in_replace_inst in Hz. unfold cores_ok.
+    rewrite (used_same_attempts s2 _ (i_name z)) by reflexivity.
+    destruct Hz as [->|[Hz Hne]]; [reflexivity|].
+    change (i_name z <> i_name x) in Hne. rewrite Hnx in Hne.
+    rewrite (jext_used s1 s2 _ (proj1 (proj2 (proj2 (proj2 I1)))) J2), (U1 _ Hne). apply HC; assumption.
+Qed.
+
+(* ------------------------------------------------------------------ (6) every legal step preserves the invariant *)
+
+Lemma legal_attempt_on s o b j a i :
+  legal s o ->
+  match o with
+  | MarkCreating b' j' a' i' _ | MarkStarted b' j' a' i' _ => (b', j', a', i') = (b, j, a, i)
+  | _ => False end ->
+  attempt_on s b j a i = true.
+Proof.
+  unfold legal. destruct o; try contradiction; intros Hl E; injection E as <- <- <- <-;
+  cbn [legalb] in Hl; apply andb_true_iff in Hl; apply Hl.
+Qed.
+
+Lemma step_cinv s o : CInv s -> legal s o -> names_attempt o -> CInv (fst (step s o)).
+Proof.
+  intros HC Hl Hn. destruct o; cbn [step].
+  - eapply CInv_jext; [exact HC | apply core_same_jext; [apply HC | apply do_create_batch_same]].
+  - eapply CInv_jext; [exact HC | apply core_same_jext; [apply HC | apply do_create_update_same]].
+  - eapply CInv_jext; [exact HC | apply core_same_jext; [apply HC | apply do_create_groups_same]].
+  - eapply CInv_jext; [exact HC | apply do_create_jobs_jext; apply HC].
+  - eapply CInv_jext; [exact HC | apply do_commit_jext; apply HC].
+  - eapply CInv_jext; [exact HC | apply core_same_jext; [apply HC | apply do_cancel_group_same]].
+  - eapply CInv_jext; [exact HC | apply core_same_jext; [apply HC | apply do_delete_batch_same]].
+  - apply do_new_instance_cinv; exact HC.
+  - apply do_activate_cinv; exact HC.
+  - apply do_deactivate_cinv; exact HC.
+  - apply do_mark_deleted_cinv; exact HC.
+  - apply do_schedule_cinv; assumption.
+  - apply do_unschedule_cinv; assumption.
+  - apply do_mark_cs_cinv; [exact HC | eapply legal_attempt_on; [exact Hl | reflexivity]].
+  - apply do_mark_cs_cinv; [exact HC | eapply legal_attempt_on; [exact Hl | reflexivity]].
+  - apply do_mark_complete_cinv; assumption.
+  - eapply CInv_jext; [exact HC | apply core_same_jext; [apply HC | apply do_add_resources_same]].
+  - apply do_billing_update_cinv; exact HC.
+  - eapply CInv_jext; [exact HC | apply core_same_jext; [apply HC | apply do_cleanup_staging_same]].
+  - eapply CInv_jext; [exact HC | apply core_same_jext; [apply HC | apply do_cleanup_cancellable_same]].
+Qed.
+
+Lemma init_cinv : CInv init.
+Proof.
+  split; [repeat split; try (apply NoDup_nil); intros a []|]. intros x [].
+Qed.
+
+(** Induction over legal histories all of whose messages satisfy a further, state-independent condition. *)
+Lemma legal_invariant_env (Q : op -> Prop) (P : state -> Prop) :
+  P init ->
+  (forall s o, P s -> legal s o -> Q o -> P (fst (step s o))) ->
+  forall ops, legal_history ops -> Forall Q ops -> P (run ops).
+Proof.
+  intros H0 Hstep ops. unfold legal_history, run.
+  generalize init H0. induction ops as [|o r IH]; intros s Hs Hl Hq; cbn [fold_left legal_from] in *.
+  - exact Hs.
+  - destruct Hl as [Hlo Hlr]. inversion Hq as [|? ? Hqo Hqr]; subst.
+    apply IH; [apply Hstep; assumption | exact Hlr | exact Hqr].
+Qed.
+
+Theorem cinv_reachable ops : legal_history ops -> Forall names_attempt ops -> CInv (run ops).
+Proof. apply (legal_invariant_env names_attempt CInv); [exact init_cinv | exact step_cinv]. Qed.
+
+(** C10 as stated: every instance (named by a real name, -1 being SQL NULL) of a reachable state reports
+    total cores minus the cores of the jobs of its open attempts when it is live (pending/active), and all
+    cores when it is inactive or deleted. *)
+Theorem free_cores_exact ops :
+  legal_history ops -> Forall names_attempt ops ->
+  forall x, In x (insts (run ops)) -> i_name x <> -1 ->
+  i_free x = if ilive (i_state x)
+             then i_cores x - zsum (jc (run ops)) (filter (fun a => (a_inst a =? i_name x) && is_open a) (attempts (run ops)))
+             else i_cores x.
+Proof. intros Hl Hq x Hx Hn. destruct (cinv_reachable ops Hl Hq) as [_ HC]. exact (HC x Hx Hn). Qed.
+
+Theorem inactive_all_free ops :
+  legal_history ops -> Forall names_attempt ops ->
+  forall x, In x (insts (run ops)) -> i_name x <> -1 -> ilive (i_state x) = false -> i_free x = i_cores x.
+Proof. intros Hl Hq x Hx Hn Hd. rewrite (free_cores_exact ops Hl Hq x Hx Hn), Hd. reflexivity. Qed.
+
+(** The tables the formula ranges over are keyed: instance names, attempt ids and job ids are unique, every
+    attempt's job exists (so [jc] is the cores of a real job) and its instance exists or is NULL. *)
+Theorem tables_keyed ops :
+  legal_history ops -> Forall names_attempt ops ->
+  let s := run ops in
+  NoDup (map i_name (insts s)) /\ NoDup (map ak (attempts s)) /\ NoDup (map jk (jobs s)) /\
+  (forall a, In a (attempts s) -> find_job s (a_batch a) (a_job a) <> None) /\
+  (forall a, In a (attempts s) -> a_inst a = -1 \/ In (a_inst a) (map i_name (insts s))).
+Proof.
+  intros Hl Hq. destruct (cinv_reachable ops Hl Hq) as [(Hju & Hau & Hiu & Haj & Hai & _) _].
+  repeat split; assumption.
+Qed.
+
+(** Free cores never leave the range [0 .. cores] as long as the scheduler never over-commits is NOT part of
+    C10; what is: the bookkeeping equals the recount. *)
+
+(* ------------------------------------------------------------------ (7) the environment assumptions are needed *)
+
+(* one committed Ready job of 1000 mcpu, one pending pool instance named 7 with 4000 mcpu *)
+Definition setup : list op :=
+  [CreateBatch 1 1 1 true; CreateUpdate 1 1 1 1 0;
+   CreateJobs 1 1 1 [mkJspec 1 (Some 0) 0 [] [] false 1000 0]; Commit 1 1 1;
+   NewInstance 7 0 4000 true].
+
+Lemma setup_legal : legal_history setup /\ Forall names_attempt setup.
+Proof. split; [vm_compute; repeat split | repeat constructor]. Qed.
+
+Definition bad_free (s : state) : Prop :=
+  exists x, In x (insts s) /\ i_name x <> -1 /\ ilive (i_state x) = true /\ i_free x <> i_cores x - used s (i_name x).
+
+(** Without the assumption of Legal.v that an unschedule names an attempt that exists (on that instance),
+    the formula fails: a forged unschedule for an attempt that was never created gives cores "back". The
+    message is legal in every other respect (existing job of a committed update). *)
+Lemma forged_unschedule_breaks_formula :
+  let s := run setup in
+  let o := UnscheduleJob 1 1 99 7 50 3 in
+  job_committed s 1 1 = true /\ find_attempt s 1 1 99 = None /\ names_attempt o /\ bad_free (fst (step s o)).
+Proof.
+  cbv zeta. split; [vm_compute; reflexivity|]. split; [vm_compute; reflexivity|]. split; [exact I|].
+  exists (mkInst 7 IPending 4000 5000 0 true). vm_compute. repeat split; try (left; reflexivity); discriminate.
+Qed.
+
+(** Without [names_attempt] (not in Legal.v): a completion that carries no attempt id but names a live
+    instance is legal for Legal.v and gives the job's cores to that instance although no attempt ended. *)
+Lemma attemptless_complete_breaks_formula :
+  let s := run setup in
+  let o := MarkComplete 1 1 (-1) 7 Cancelled None (Some 5) 3 in
+  legal s o /\ ~ names_attempt o /\ bad_free (fst (step s o)).
+Proof.
+  cbv zeta. split; [vm_compute; reflexivity|]. split; [intros H; specialize (H eq_refl); discriminate|].
+  exists (mkInst 7 IPending 4000 5000 0 true). vm_compute. repeat split; try (left; reflexivity); discriminate.
+Qed.
+
+(** Non-vacuity: a legal history with a schedule, a duplicate schedule, a started report, a completion, a
+    late duplicate completion and a deactivation; the theorem's formula evaluates to the recorded value. *)
+Definition demo : list op :=
+  setup ++ [ActivateInstance 7; ScheduleJob 1 1 10 7; ScheduleJob 1 1 10 7; MarkStarted 1 1 10 7 20;
+            MarkComplete 1 1 10 7 Success (Some 20) (Some 30) 2; MarkComplete 1 1 10 7 Success (Some 20) (Some 31) 2;
+            DeactivateInstance 7 4 40].
+
+Example demo_legal : legal_history demo /\ Forall names_attempt demo.
+Proof. split; [vm_compute; repeat split | repeat constructor; intros; discriminate]. Qed.
+
+Example demo_free_trace :
+  map (fun k => map (fun x => (i_free x, used (run (firstn k demo)) (i_name x))) (insts (run (firstn k demo)))) [5; 7; 8; 10; 11; 12]%nat
+  = [[(4000, 0)]; [(3000, 1000)]; [(3000, 1000)]; [(4000, 0)]; [(4000, 0)]; [(4000, 0)]].
+Proof. vm_compute. reflexivity. Qed.
